@@ -13,6 +13,7 @@ HANDLERS = {
     "regs_py": ("harness.py.regs_cmd", "run"),
     "dec": ("harness.py.dec_cmd", "run"),
     "rt": ("harness.py.dec_cmd", "run_rt"),
+    "lcd_py": ("harness.py.lcd_cmd", "run"),
 }
 
 
